@@ -69,6 +69,7 @@ fn main() {
         "C07" => dispatch(props::c07::C07, &cfg, &replay),
         "C09" => dispatch(props::c09::C09, &cfg, &replay),
         "C10" => dispatch(props::c10::RelProp(props::c10::RWhich::C10), &cfg, &replay),
+        "C14" => dispatch(props::c14::C14, &cfg, &replay),
         "C13" => dispatch(props::c10::RelProp(props::c10::RWhich::C13), &cfg, &replay),
         _ => {
             eprintln!("verif: unknown property {}", id);
